@@ -244,6 +244,9 @@ TRANSLATED = {
          'the generated expressions equal, for every pair of conditions in row-major order, squared distance / P, 1 - Pearson r and '
          'the Poisson-KL formula on prior-regularised rates (for every number of conditions and channels; euclidean also for every '
          'numeric structure, incl. the executable one); mahalanobis: difference\' * precision * difference / P for every symmetric precision'),
+ 'C04': ('the degrees-of-freedom expressions of eval_bootstrap / _pattern / _rdm, eval_dual_bootstrap, bootstrap_crossval and '
+         'eval_dual_bootstrap_random (inference/evaluate.py), with the numbers of distinct values of the grouping descriptors as inputs',
+         'the generated expressions are the number of resampled units minus one, the smaller one when both factors are resampled'),
  'C05': ('the index arithmetic of sets_k_fold_pattern / sets_k_fold_rdm / sets_k_fold / sets_random and the group counts of '
          'sets_of_k_* (inference/crossvalsets.py), default_k_pattern / default_k_rdm (util/inference_util.py)',
          'the generated definitions equal the fold model for every group order, k and fold; every group is in exactly one test fold, '
@@ -308,7 +311,7 @@ m = dict(
     engines=[dict(name='coq-proof+correspondence', path='/verif/coq + /verif/harness',
                   serves_properties=[c['property_id'] for c in checks],
                   kind_free_text='Coq 8.16.1 theorems about a hand-written Gallina model; model tied to /repo by a '
-                  'correspondence check evaluated inside Coq (vm_compute) on every run, and for C01, C02, C05, C06, C09, C10, C14, C18 additionally by '
+                  'correspondence check evaluated inside Coq (vm_compute) on every run, and for C01, C02, C04, C05, C06, C09, C10, C14, C18 additionally by '
                   'definitions translated from the source on every run with kernel-checked tie proofs')],
     checks=checks, not_applicable=na,
     notes='fix: commits in /repo and known findings are listed in /verif/known_findings.json; see DESIGN.md.')
